@@ -87,7 +87,7 @@ func c11Select(set []c11Cert, serverName string, strict bool) int {
 	name = strings.TrimRight(name, ".")
 	for i := len(set) - 1; i >= 0; i-- { // a later certificate naming the same host wins the index
 		for _, n := range set[i].names() {
-			if n == name && name != "" {
+			if strings.ToLower(n) == name && name != "" { // host names compare without regard to letter case, in the certificate too
 				return i
 			}
 		}
@@ -96,7 +96,7 @@ func c11Select(set []c11Cert, serverName string, strict bool) int {
 		wc := "*" + name[dot:]
 		for i := len(set) - 1; i >= 0; i-- {
 			for _, n := range set[i].names() {
-				if n == wc {
+				if strings.ToLower(n) == wc {
 					return i
 				}
 			}
@@ -126,7 +126,7 @@ func (s c11Source) Certificates() chan []tls.Certificate    { return s.ch }
 
 func TestVerifC11Select(t *testing.T) {
 	L := ev.Begin("C11", "c11-select", "exploration",
-		"every ordered list of 1..3 certificates from 10 generated leafs (expired and not yet valid ones included, CN only, SAN only, CN repeated in SANs, CN beside other SANs, wildcard CN / SAN, unrelated) x 13 requested server names (absent, exact, upper case, trailing dot, single-label wildcard match, two labels deep, unrelated) x strict/non-strict, through getCertificate on the built store and through a real in-memory TLS handshake against cert.TLSConfig; oracle: exact -> single-label wildcard -> first / none. non-trivial = set with >=2 certificates")
+		"every ordered list of 1..3 certificates from 11 generated leafs (expired and not yet valid ones included, names written with capitals in the certificate, CN only, SAN only, CN repeated in SANs, CN beside other SANs, wildcard CN / SAN, unrelated) x 18 requested server names (absent, exact, upper case, trailing dot, single-label wildcard match, two labels deep, unrelated) x strict/non-strict, through getCertificate on the built store and through a real in-memory TLS handshake against cert.TLSConfig; oracle: exact -> single-label wildcard -> first / none. non-trivial = set with >=2 certificates")
 	pool := []c11Cert{
 		c11Make("c-foo", "foo.com"),
 		c11Make("c-wild", "", "*.foo.com"),
@@ -137,9 +137,10 @@ func TestVerifC11Select(t *testing.T) {
 		c11Make("c-cn+san", "cn.mixed.example", "san.mixed.example"), // the common name is not repeated among the SANs
 		c11Make("c-wildcn+san", "*.wcn.example", "plain.wcn.example"),
 		c11MakeValid("c-expired", "expired.example", time.Now().Add(-48*time.Hour), time.Now().Add(-24*time.Hour), "expired.example", "*.expired.example"),
+		c11Make("c-upper", "", "Upper.Example", "*.UP.example"), // names written with capitals in the certificate
 		c11MakeValid("c-future", "future.example", time.Now().Add(24*time.Hour), time.Now().Add(48*time.Hour), "future.example"),
 	}
-	names := []string{"", "foo.com", "FOO.COM", "foo.com.", "a.foo.com", "x.foo.com", "x.y.foo.com", "other.net", "www.bar.org", "cn.only.example", "cn.mixed.example", "san.mixed.example", "x.wcn.example", "expired.example", "a.expired.example", "future.example"}
+	names := []string{"", "foo.com", "FOO.COM", "foo.com.", "a.foo.com", "x.foo.com", "x.y.foo.com", "other.net", "www.bar.org", "cn.only.example", "cn.mixed.example", "san.mixed.example", "x.wcn.example", "expired.example", "a.expired.example", "future.example", "upper.example", "x.up.example"}
 	var sets [][]int
 	var rec func(cur []int)
 	rec = func(cur []int) {
